@@ -118,6 +118,18 @@ func checkC12r(run *Run, res *Result) {
 func checkC12(run *Run, res *Result) {
 	if run.Cfg.Prop == "C12r" {
 		checkC12r(run, res)
+		// runs in which a wait() goroutine was parked around its finish token belong to the stale-token family
+		for i := range res.Violations {
+			if res.Violations[i].Rule == "C12/R4-did-not-stop-after-last-final-end" {
+				res.Violations[i].Sig = "plain"
+			}
+		}
+		markPreemptedWait(run, res, "C12/R4-did-not-stop-after-last-final-end")
+		for i := range res.Violations {
+			if res.Violations[i].Sig == "plain" {
+				res.Violations[i].Sig = "after-rebalance-membership-" + run.Cfg.Membership
+			}
+		}
 		return
 	}
 	cfg := &run.Cfg
